@@ -64,13 +64,27 @@ RULE = ('table (HDF5, ~10 ms/case; every case in one of jit / nojit chosen by ha
         'source tables are unchanged afterwards. I. change-directed: every new small integer literal K of the tree under '
         'test is planted as number of rows of the old table / the snapshot / the result, run of versions, segment size, '
         'field chunk size (K-1, K, K+1, 2K-1, 2K, 2K+1, 3K, up to 520 rows), key width, string-cell length and number of '
-        'compared fields. pipe (kernels on sorted arrays, both modes): '
+        'compared fields. J. column NAMES (the model is name-agnostic, the harness maps names to positions): for the '
+        'primary-key names id / patient_id / j_valid / k (thorough or changed tree: + pk, j_valid_from_id, to, ID, a_b, '
+        'j_valid_to_) every single payload column named by EVERY non-empty proper substring of the key name and of '
+        'j_valid_from / j_valid_to, by their superstrings (suffix / prefix added, doubled), case variants, reversal, '
+        'same-length variant, leading / trailing blank, non-ASCII suffix; every pair (thorough: ordered pair) of a '
+        '20-name alphabet of such names with each column in turn carrying the only difference; every triple of an '
+        '8-name alphabet and chains of names that are substrings of one another; extra columns with related names '
+        '(only old / only new / both but not in the schema / schema only) that must not appear in nor influence the '
+        'result; 4-6 seeded names; rotating: the order in which the columns were created in either table (as listed / '
+        'reversed / payload first / alphabetical / reverse / hashed, old and new differing), the place of the key and of '
+        'j_valid_* in the schema (key first / last / in the middle / not listed); the result group must hold exactly the '
+        'payload columns, each under its own name, pairwise different columns. pipe (kernels on sorted arrays, both modes): '
         'every non-decreasing old key list of <= 5 rows over 3 keys x every strictly increasing snapshot over 4 keys '
         'x every per-matched-key difference pattern in {same, num, str, both}. indices: every old list of <= 4 '
         'entries over 3 symbols x every new list of <= 3 entries over 4 symbols (also unsorted: model = code). '
         'Non-trivial = at least one key present in both tables or several versions of a key.')
 EXHAUSTIVE = {'quick': True, 'thorough': True}
-TRUSTED = ['numpy argsort(kind=stable), fancy indexing and Session.dataset_sort_index / apply_index are defined in '
+TRUSTED = ['the model is name-agnostic: it receives the compared columns by position in schema order; which columns are '
+           'compared (listed by the schema and present in both tables, except the key and j_valid_*) is restated in the '
+           'harness (_layout / _schema_names in harness/props/C17.py) and tied to journal.py:39-66 by this run',
+           'numpy argsort(kind=stable), fancy indexing and Session.dataset_sort_index / apply_index are defined in '
            'Gallina (Model/Journal.v: argsort, take, dataset_sort_index, apply_index_str) and tied to the real '
            'functions only by this correspondence run',
            'h5py/ExeTera field storage round-trip (write of the destination arrays, read-back of .data/.indices/.values)',
@@ -80,7 +94,9 @@ TRUSTED = ['numpy argsort(kind=stable), fancy indexing and Session.dataset_sort_
            'the order numpy and numba give to S<w> cells is the bytewise unsigned order of the NUL-padded cells (this is the '
            'order the model uses: Model/JournalKeys.key_enc, proved an order isomorphism; tied to the real code by the '
            'fixed-string-key cases of this run)']
-ASSUMPTIONS = ['snapshot keys are unique', 'old and new column of a field have the same kind and dtype',
+ASSUMPTIONS = ['snapshot keys are unique', 'column names are distinct, non-empty HDF5 link names different from the '
+               'primary-key name and from j_valid_from / j_valid_to (otherwise arbitrary: the result must not depend on them)',
+               'old and new column of a field have the same kind and dtype',
                'schema lists the payload fields; primary key / j_valid_from / j_valid_to are not written to the result '
                '(journal_table skips them)',
                'payload kinds: numeric, fixed-string (compared and copied like numeric data) and indexed-string columns']
